@@ -45,7 +45,9 @@ CONTROLS = {
                 ("Timeout.mc.cfg", {"Bug": '"no_set_on_submit"'}, "NoTimerlessSleepWithWork")],
     "WorkerLoop": [("WorkerLoop.mc.cfg", {"Bug": '"clear_before_wait"'}, "ThreadExits"),
                    ("WorkerLoop.mc.cfg", {"Bug": '"no_set_on_shutdown"'}, "ThreadExits"),
-                   ("WorkerLoop.mc.cfg", {"Bug": '"done_future_keeps_executor"'}, "ThreadExits")],
+                   ("WorkerLoop.mc.cfg", {"Bug": '"done_future_keeps_executor"'}, "ThreadExits"),
+                   ("WorkerLoop.mc.cfg", {"Bug": '"exit_only_when_idle"'}, "ThreadExits"),
+                   ("WorkerLoop.mc2.cfg", {"Bug": '"exit_only_when_idle"'}, "GoneAfterOnePeriod")],
     "Zip": [("Zip.mc.cfg", {"Bug": '"no_fanout"'}, "ContractHolds"),
             ("Zip.mc.cfg", {"Bug": '"slot_shift"'}, "ContractHolds"),
             ("Zip.mc2.cfg", {"AsShipped_D12": "TRUE"}, "ContractHolds")],
